@@ -230,6 +230,7 @@ Print Assumptions replicas_agree.
 Theorem source_tie :
   src_has_responded_le = true /\ src_clear_to_guard_le = true /\ src_clear_to_shortcut_eq = true /\
   src_clear_to_loop_le = true /\ src_evict_when_gt = true /\
+  src_concurrent_save_steps = true /\ src_sessions_saved_in_meta = true /\
   not_session_managed_client_id = 0 /\ noop_series_id = 0 /\ series_id_first_proposal = 1 /\
   series_id_for_register = 2 ^ 64 - 2 /\ series_id_for_unregister = 2 ^ 64 - 1 /\
   0 < lru_max_session_count.
